@@ -114,7 +114,7 @@ func (w *world) submit(sp execSpec) *execState {
 		case sp.Wrapper == "timeout-fires":
 			select {
 			case <-exec.Canceled():
-			case <-time.After(40 * time.Second):
+			case <-harness.After(40 * time.Second):
 			}
 			return 0, errX
 		case sp.Beh == "gate":
@@ -126,7 +126,7 @@ func (w *world) submit(sp execSpec) *execState {
 		case sp.Beh == "cancel":
 			select {
 			case <-exec.Canceled():
-			case <-time.After(40 * time.Second):
+			case <-harness.After(40 * time.Second):
 			}
 			return 0, exec.Context().Err()
 		}
@@ -165,7 +165,7 @@ func wait(st *execState) bool {
 	select {
 	case <-st.done:
 		return true
-	case <-time.After(30 * time.Second):
+	case <-harness.After(30 * time.Second):
 		return false
 	}
 }
@@ -321,7 +321,7 @@ func run(sc scenario) (out runOut) {
 				out.racedTrials = true
 			}
 			// everyone either parks inside the function or is refused
-			deadline := time.Now().Add(30 * time.Second)
+			deadline := harness.Wait(30 * time.Second)
 			for {
 				settled := 0
 				for _, st := range trials {
@@ -337,7 +337,7 @@ func run(sc scenario) (out runOut) {
 				if settled == len(trials) {
 					break
 				}
-				if time.Now().After(deadline) {
+				if deadline.Expired() {
 					out.inconclusive = "phase B: trials neither entered nor were refused within 30s"
 					return out
 				}
@@ -368,12 +368,12 @@ func run(sc scenario) (out runOut) {
 				trials = append(trials, st)
 				admit, checked := m.TryAcquire(now)
 				// wait until the trial is inside the function, or finished
-				deadline := time.Now().Add(30 * time.Second)
+				deadline := harness.Wait(30 * time.Second)
 				for st.entered.Load() == 0 {
 					select {
 					case <-st.done:
 					default:
-						if time.Now().After(deadline) {
+						if deadline.Expired() {
 							out.inconclusive = "phase B: a trial neither entered nor finished within 30s"
 							return out
 						}
